@@ -340,6 +340,7 @@ func runResources(r *Rng, n int, w io.Writer, stats map[string]int) {
 			}
 			pods = append(pods, p.materialise())
 		}
+		var first map[string]interface{}
 		for perm := 0; perm < 2; perm++ {
 			pp := make([]*v1.Pod, len(pods))
 			for a, b := range r.perm(len(pods)) {
@@ -372,6 +373,24 @@ func runResources(r *Rng, n int, w io.Writer, stats map[string]int) {
 				}
 				obs["remaining"] = em
 			}()
+			if perm == 0 {
+				first = obs
+			} else {
+				eq := true
+				for _, k := range []string{"podTotal", "capTotal"} {
+					eq = eq && fmt.Sprint(first[k]) == fmt.Sprint(obs[k])
+				}
+				// the starve-test inputs: leading component of each largest-* record
+				lead := func(o map[string]interface{}) string {
+					a, _ := o["lpCPU"].(PRes)
+					b, _ := o["lpMem"].(PRes)
+					c, _ := o["laCPU"].(PRes)
+					d, _ := o["laMem"].(PRes)
+					return fmt.Sprint(a.CPU, b.Mem, c.CPU, d.Mem)
+				}
+				eq = eq && lead(first) == lead(obs)
+				obs["permEqual"] = eq
+			}
 			ppods := []PPod{}
 			for _, p := range pp {
 				ppods = append(ppods, protoPod(p))
